@@ -73,4 +73,11 @@ CHECKS = {
         technique="runtime monitoring: in-body deep-copy event log vs evaluated written value under mutation schedules",
         ref="DESIGN.md section 4 C17",
     ),
+    "C16": dict(
+        level="exploration",
+        text="The same generated modules (values built from sets/frozensets/dicts with mixed, non-orderable and partially ordered elements, in two construction variants) are executed by the real code in one fresh interpreter per configuration - PYTHONHASHSEED x {black, black missing} plus format-command black/cat on a subset - and the written snapshot arguments are compared: byte-identical across hash seeds and construction orders, identical ast.dump across formatter configurations; every configuration's result is also re-executed plainly (value correct).",
+        note="Separate interpreters give genuinely different hash seeds; class/Enum members have id-based hashes, so set iteration order varies even within one seed.",
+        technique="runtime monitoring: differential execution across interpreter configurations (hash seed x formatter) with text/AST equality oracle",
+        ref="DESIGN.md section 4 C16",
+    ),
 }
